@@ -1,2 +1,41 @@
-(* placeholder; theorems are added below *)
-From Hexital Require Import Base.Prelude.
+(* C13 - Indicators sharing candles do not interfere with one another. *)
+From Coq Require Import ZArith List String Bool.
+From Hexital Require Import Base.Prelude Base.Num Model.Manager Model.Candle Model.Readings Model.Engine
+  Proofs.AccessProofs Proofs.FrameProofs.
+Import ListNotations.
+
+(* Whatever any indicator tree does - calculate, calculate_index (positive or negative
+   index), a managed set_reading, a single _calculate_reading - for each of the 27 shipped
+   kinds and any tree built from them: the candles keep their number, timestamps, OHLCV,
+   clean values and tags, and every entry of either reading dictionary whose
+   (dictionary, name) is not one of the tree's own is left exactly as it was. *)
+Theorem C13_engine_writes_only_its_own_entries :
+  forall (O : NumOps) (fuel : nat) (req : request O) (I : ind O) (st : store O) (v : val O) (st' : store O),
+  wf_tree O fuel I -> run O fuel req I st = Ok (v, st') -> frame O (tree_names O fuel I) st st'.
+Proof. exact run_frame. Qed.
+Print Assumptions C13_engine_writes_only_its_own_entries.
+
+(* ... in particular for calculate() and calculate_index() of every shipped indicator *)
+Theorem C13_calculate_leaves_others_alone :
+  forall (O : NumOps) (k : kind O) (name : string) (rnd : Z) (st st' : store O),
+  calculate O (top O k name rnd) st = Ok st' -> frame O (tree_names O FUEL (top O k name rnd)) st st'.
+Proof. exact calculate_frame. Qed.
+Print Assumptions C13_calculate_leaves_others_alone.
+
+Theorem C13_calculate_index_leaves_others_alone :
+  forall (O : NumOps) (k : kind O) (name : string) (rnd : Z) (s : Z) (e : option Z) (st st' : store O),
+  calculate_index O (top O k name rnd) s e st = Ok st' -> frame O (tree_names O FUEL (top O k name rnd)) st st'.
+Proof. exact calculate_index_frame. Qed.
+Print Assumptions C13_calculate_index_leaves_others_alone.
+
+(* purging (hence recalculating or removing) an indicator removes its own entries only *)
+Theorem C13_purge_leaves_others_alone :
+  forall (O : NumOps) (I : ind O) (st : store O),
+  let st' := purge O I st in
+  List.length st' = List.length st /\
+  forall k c c', nth_error st k = Some c -> nth_error st' k = Some c' ->
+    t c' = t c /\ cur O (p c') = cur O (p c) /\ clean O (p c') = clean O (p c) /\ tagged O (p c') = tagged O (p c) /\
+    (forall sub nm, In (sub, nm) (tree_names O FUEL I) -> lookup_own O sub (p c') nm = None) /\
+    (forall sub nm, ~ In (sub, nm) (tree_names O FUEL I) -> lookup_own O sub (p c') nm = lookup_own O sub (p c) nm).
+Proof. exact purge_exact. Qed.
+Print Assumptions C13_purge_leaves_others_alone.
